@@ -126,7 +126,7 @@ SliceAfter(a, vals) ==
 
 (* =========================== replies =================================== *)
 ReplyOK(a, r) ==
-  CASE a.op \in {"load", "fresh", "brev", "bload", "bloadmany", "bnew0"} -> r = 0
+  CASE a.op \in {"load", "fresh", "brev", "bload", "bnew0"} -> r = 0
     [] a.op = "bsetrun" -> r = 0          \* number of Set calls of the run that were refused
     [] a.op = "bdata" ->   \* a block from (block number, bytes): fails or holds what the bytes denote
          LET d == Denote(a.bytes) IN
@@ -167,18 +167,6 @@ Do(a, r) ==
          /\ a.kind \in {"big", "tip"} /\ StartOK(a.kind, a.start)
          /\ \A i \in 1..Len(a.ms) : a.ms[i] \in Bits
          /\ blk' = [blk EXCEPT ![a.h] = [ok |-> TRUE, kind |-> a.kind, start |-> a.start, S |-> AsSet(a.ms)]]
-         /\ UNCHANGED cur
-    [] a.op = "bloadmany" ->       \* many blocks built by the harness, one event: handles hs[i] get starts[i], mss[i]
-         /\ a.kind \in {"big", "tip"}
-         /\ Len(a.starts) = Len(a.hs) /\ Len(a.mss) = Len(a.hs)
-         /\ \A i \in 1..Len(a.hs) : /\ a.hs[i] \in DOMAIN blk /\ StartOK(a.kind, a.starts[i])
-                                      /\ \A j \in 1..Len(a.mss[i]) : a.mss[i][j] \in Bits
-                                      /\ \A k \in 1..Len(a.hs) : a.hs[k] = a.hs[i] => k = i
-         /\ blk' = [h \in DOMAIN blk |->
-                      IF \E i \in 1..Len(a.hs) : a.hs[i] = h
-                      THEN LET i == CHOOSE x \in 1..Len(a.hs) : a.hs[x] = h
-                           IN [ok |-> TRUE, kind |-> a.kind, start |-> a.starts[i], S |-> AsSet(a.mss[i])]
-                      ELSE blk[h]]
          /\ UNCHANGED cur
     [] a.op = "bsetrun" ->         \* cnt Set calls with the block's own integers of bits lo, lo+1, ...: one event
          /\ blk[a.h].ok /\ a.lo >= 0 /\ a.cnt >= 0 /\ a.lo + a.cnt <= C
@@ -268,7 +256,7 @@ ImplAll(b, dir) ==
 Flip(dir) == IF dir = "f" THEN "r" ELSE "f"
 
 ImplReply(a) ==
-  CASE a.op \in {"load", "fresh", "brev", "bload", "bloadmany", "bnew0", "bsetrun"} -> 0
+  CASE a.op \in {"load", "fresh", "brev", "bload", "bnew0", "bsetrun"} -> 0
     [] a.op = "bdata"     -> ImplUnmarshal(a.bytes).err
     [] a.op = "marshal"   -> ImplMarshal(cur)
     [] a.op = "unmarshal" -> ImplUnmarshal(a.bytes)
